@@ -77,16 +77,36 @@ def collect(obs, res=None, snap=True, on_item=None):
     return res
 
 
-def plain(items, ops):
-    return collect(rx.from_(list(items)).pipe(*ops))
+def source(items, src='from'):
+    """'from': rx.from_ (emits from the trampoline, after subscribe() returned to it);  'create': an inline rx.create that emits
+    everything INSIDE subscribe();  'replay': a ReplaySubject that already holds the items (also emits inside subscribe())."""
+    items = list(items)
+    if src == 'create':
+        def _subscribe(observer, scheduler=None):
+            for i in items:
+                observer.on_next(i)
+            observer.on_completed()
+        return rx.create(_subscribe)
+    if src == 'replay':
+        from rx.subject import ReplaySubject
+        s = ReplaySubject()
+        for i in items:
+            s.on_next(i)
+        s.on_completed()
+        return s
+    return rx.from_(items)
 
 
-def store(items, ops):
-    return collect(rx.from_(list(items)).pipe(rs.state.with_memory_store(list(ops))))
+def plain(items, ops, src='from'):
+    return collect(source(items, src).pipe(*ops))
 
 
-def multiplex(items, ops):
-    return collect(rx.from_(list(items)).pipe(rs.ops.multiplex(list(ops))))
+def store(items, ops, src='from'):
+    return collect(source(items, src).pipe(rs.state.with_memory_store(list(ops))))
+
+
+def multiplex(items, ops, src='from'):
+    return collect(source(items, src).pipe(rs.ops.multiplex(list(ops))))
 
 
 def rawmux(events, ops):
